@@ -74,7 +74,7 @@ KNOWN_WITNESS = {
 
 # -------------------------------------------------------------------------------------------- type trees
 # T ::= ('p', ty_name) | ('e',) | ('ptr', flavour) | ('a', n, T) | ('f', T) | ('s'|'u', packed, aligned|None, [M])
-# M ::= (alignas, width|None, named, T)
+# M ::= (alignas, width|None, named, T)      alignas: int (0 = none) or ('T', type) for _Alignas(type-name)
 
 def ser(t):
     k = t[0]
@@ -91,7 +91,10 @@ def ser(t):
     if k in 'su':
         s = f'{k} {1 if t[1] else 0} {"-" if t[2] is None else t[2]} {len(t[3])}'
         for (aa, w, nm, mt) in t[3]:
-            s += f' m {aa} {"-" if w is None else w} {1 if nm else 0} ' + ser(mt)
+            if isinstance(aa, tuple):       # _Alignas(type-name): ('T', type)
+                s += f' M {"-" if w is None else w} {1 if nm else 0} ' + ser(aa[1]) + ' ' + ser(mt)
+            else:
+                s += f' m {aa} {"-" if w is None else w} {1 if nm else 0} ' + ser(mt)
         return s
     raise ValueError(t)
 
@@ -118,6 +121,12 @@ def parse(tokens):
             j = i + 4
             ms = []
             for _ in range(n):
+                if tokens[j] == 'M':
+                    w = None if tokens[j + 1] == '-' else int(tokens[j + 1]); nm = tokens[j + 2] == '1'
+                    ta, j = ty(j + 3)
+                    t, j = ty(j)
+                    ms.append((('T', ta), w, nm, t))
+                    continue
                 assert tokens[j] == 'm'
                 aa = int(tokens[j + 1]); w = None if tokens[j + 2] == '-' else int(tokens[j + 2]); nm = tokens[j + 3] == '1'
                 t, j = ty(j + 4)
@@ -141,10 +150,25 @@ def aggregates(t, out):
         aggregates(t[1], out)
     return out
 
+def all_aggregates(t, out):
+    """struct/union nodes of a tree including those inside _Alignas(type-name) operands"""
+    k = t[0]
+    if k in 'su':
+        out.append(t)
+        for m in t[3]:
+            if isinstance(m[0], tuple):
+                all_aggregates(m[0][1], out)
+            all_aggregates(m[3], out)
+    elif k == 'a':
+        all_aggregates(t[2], out)
+    elif k == 'f':
+        all_aggregates(t[1], out)
+    return out
+
 def regions_of(t):
     """ids of the known-finding regions some aggregate of the tree lies in"""
     r = set()
-    for a in aggregates(t, []):
+    for a in all_aggregates(t, []):
         if not a[1]:
             continue
         if a[0] == 's' and any(m[1] is not None and m[1] > 0 for m in a[3]):
@@ -163,12 +187,14 @@ def clone(t):
     if k == 'f':
         return ('f', clone(t[1]))
     if k in 'su':
-        return (k, t[1], t[2], [(aa, w, nm, clone(mt)) for (aa, w, nm, mt) in t[3]])
+        return (k, t[1], t[2], [((('T', clone(aa[1])) if isinstance(aa, tuple) else aa), w, nm, clone(mt)) for (aa, w, nm, mt) in t[3]])
     return tuple(t)
 
 class Namer:
-    def __init__(self):
+    def __init__(self, tag=''):
         self.n = 0
+        self.tag = tag
+        self.pre = []        # typedefs that must precede the declaration (operands of _Alignas)
     def fresh(self, p='m'):
         self.n += 1
         return f'{p}{self.n}'
@@ -216,7 +242,15 @@ def render(t, name, rng, namer, names, noconst=False):
             mname = namer.fresh() if nm else ''
             mnames.append(mname)
             d = render(mt, mname, rng, namer, names, noconst=w is not None)
-            if aa != 0 or (w is None and rng.random() < 0.03):
+            if isinstance(aa, tuple):
+                ta = aa[1]
+                if ta[0] in 'su' or rng.random() < 0.5:
+                    an = f'A{namer.tag}_{namer.fresh("")}'
+                    namer.pre.append('typedef ' + render(ta, an, rng, namer, {}) + ';')
+                    d = f'_Alignas({an}) ' + d
+                else:
+                    d = f'_Alignas({render(ta, "", rng, namer, {})}) ' + d
+            elif aa != 0 or (w is None and rng.random() < 0.03):
                 d = f'_Alignas({aa}) ' + d
             if w is not None:
                 d += f' : {w}'
@@ -282,10 +316,12 @@ def make_program(cases, rng):
     info = []
     for i, t in enumerate(cases):
         t = clone(t)              # every aggregate node gets its own identity (member names are kept per node)
-        namer = Namer()
+        namer = Namer(str(i))
         names = {}
         decl = render(t, f'T{i}', rng, namer, names)
+        src += namer.pre
         src.append(f'typedef {decl};')
+        full = ' '.join(namer.pre + [f'typedef {decl};'])       # what a report shows
         body.append(f'  printf("S {i} %ld %ld\\n", (long)sizeof(T{i}), (long)_Alignof(T{i}));')
         obs = []
         if t[0] in 'su':
@@ -304,7 +340,7 @@ def make_program(cases, rng):
                     if o[3] <= 31:   # chibicc cannot assemble stores to bit-fields of 32..63 bits (a C04 matter), so the store image is for narrow fields
                         body.append(f'    memset(&u, 0, sizeof u); u.v.{o[1]} = {"1" if o[4] else "-1"}; bits({i}, {kk}, &u, sizeof u);')
             body.append('  }')
-        info.append((names, decl, t))
+        info.append((names, full, t))
     src.append('int main(void) {')
     src += body
     src.append('  return 0;\n}')
@@ -492,6 +528,21 @@ def gen_member_type(rng, depth, allow_flex_struct=True):
         return ('a', rng.choice([1, 2, 3, 5, 7]), base)
     return ('p', rng.choice(list(OBSERVE)))
 
+def gen_alignas_operand(rng, depth):
+    x = rng.random()
+    if x < 0.30:
+        return ('a', rng.choice([2, 3, 5, 12]), ('p', rng.choice(['ty_char', 'ty_short', 'ty_int', 'ty_long', 'ty_double', 'ty_ldouble', 'ty_ushort'])))
+    if x < 0.60:
+        for _ in range(10):
+            t = gen_aggregate(rng, min(depth, 1), rng.randrange(1, 4), top=False)
+            if not has_flex(t):
+                return t
+    if x < 0.72:
+        return ('ptr', rng.randrange(6))
+    if x < 0.80:
+        return ('a', 3, ('ptr', rng.randrange(6)))
+    return ('p', rng.choice(list(OBSERVE)))
+
 def has_flex(t):
     if t[0] == 'f':
         return True
@@ -518,7 +569,10 @@ def nat_align(t):
     for (aa, w, nm, mt) in t[3]:
         if w is not None and not nm:
             continue
-        a = aa if aa else (1 if t[1] else nat_align(mt))
+        if isinstance(aa, tuple):
+            a = nat_align(aa[1])
+        else:
+            a = aa if aa else (1 if t[1] else nat_align(mt))
         al = max(al, a)
     return al
 
@@ -549,9 +603,16 @@ def gen_aggregate(rng, depth, nmem, top=True, kind=None, packed=None):
         if has_flex(mt):
             mt = ('p', 'ty_int')
         aa = 0
-        if rng.random() < 0.15:
+        x = rng.random()
+        if x < 0.13:
             na = nat_align(mt)
             aa = rng.choice([a for a in (1, 2, 4, 8, 16, 32) if a >= na])
+        elif x < 0.26:
+            # _Alignas(type-name): operands whose size differs from their alignment (arrays, structs, unions) and scalars/pointers
+            ta = gen_alignas_operand(rng, depth)
+            if nat_align(ta) < nat_align(mt):      # C11 6.7.5p4: may not reduce the alignment -> take a byte buffer as the member
+                mt = ('a', rng.choice([1, 3, 12, 17]), ('p', 'ty_uchar'))
+            aa = ('T', ta)
         named = True
         if mt[0] in 'su' and rng.random() < 0.4:
             named = False
@@ -578,6 +639,13 @@ def member_alphabet():
         A.append((16, None, True, ('p', 'ty_char')))
         A.append((0, None, True, ('s', False, None, [(0, None, True, ('p', 'ty_char')), (0, None, True, ('p', 'ty_short'))])))
         A.append((0, None, False, ('u', False, None, [(0, None, True, ('p', 'ty_int')), (0, 7, True, ('p', 'ty_uchar'))])))
+        buf = ('a', 12, ('p', 'ty_uchar'))
+        for ta in (('a', 3, ('p', 'ty_int')),
+                   ('s', False, None, [(0, None, True, ('a', 12, ('p', 'ty_char')))]),
+                   ('s', False, None, [(0, None, True, ('p', 'ty_int')), (0, None, True, ('a', 8, ('p', 'ty_char')))]),
+                   ('u', False, None, [(0, None, True, ('p', 'ty_short')), (0, None, True, ('a', 5, ('p', 'ty_char')))]),
+                   ('ptr', 2), ('p', 'ty_ldouble'), ('a', 2, ('p', 'ty_long'))):
+            A.append((('T', ta), None, True, buf))
         for base, ws in (('ty_char', (1, 5, 8)), ('ty_ushort', (9, 16)), ('ty_int', (1, 17, 31, 32)), ('ty_ulong', (33, 63)), ('ty_bool', (1,))):
             for w in ws:
                 A.append((0, w, True, ('p', base)))
@@ -843,6 +911,52 @@ def stddef_leg(ctx, corr):
         corr.violations.append({'what': 'include/stddef.h type differs from the psABI (gcc 12)', 'input': '<stddef.h> size_t ptrdiff_t wchar_t max_align_t offsetof',
                                 'expected': og, 'got': bad})
 
+def alignas_vars_leg(ctx, corr):
+    """_Alignas(type-name) / _Alignas(n) on file-scope, static and automatic variables: the address must be a multiple of the
+    requested alignment (attr->align reaches var->align, the .align directive and the frame layout)"""
+    rng = ctx.rng
+    n = 40 if not ctx.thorough else 400
+    pre, glob, loc, body = [], [], [], []
+    want = []
+    for i in range(n):
+        if rng.random() < 0.7:
+            ta = gen_alignas_operand(rng, 1)
+            if regions_of(ta):
+                continue
+            namer = Namer(f'v{i}')
+            an = f'AV{i}'
+            pre += namer.pre
+            d = render(ta, an, rng, namer, {})
+            pre += namer.pre
+            pre.append(f'typedef {d};')
+            spec, mod = f'_Alignas({an})', f'_Alignof({an})'
+        else:
+            a = rng.choice([1, 2, 4, 8, 16, 32])
+            spec, mod = f'_Alignas({a})', str(a)
+        glob.append(f'char gp{i}; {spec} char g{i}; static {spec} unsigned char sg{i}[3];')
+        loc.append(f'  char lp{i}; {spec} char l{i}; static {spec} char sl{i};')
+        body.append(f'  printf("A {i} %ld %ld %ld %ld\\n", (long)((unsigned long)&g{i} % {mod}), (long)((unsigned long)sg{i} % {mod}), '
+                    f'(long)((unsigned long)&l{i} % {mod}), (long)((unsigned long)&sl{i} % {mod}));')
+        want.append(f'A {i} 0 0 0 0')
+    src = 'int printf(const char *, ...);\n' + '\n'.join(pre + glob) + '\nint main(void) {\n' + '\n'.join(loc + body) + '\n  return 0; }\n'
+    okg, og = run_program(ctx, src, 'avars', 'g')
+    if not okg:
+        corr.count('skipped_gcc_rejects')
+        return
+    okc, oc = run_program(ctx, src, 'avars', 'c')
+    corr.evaluations += len(want)
+    corr.count('alignas-variable', len(want))
+    if og != want:
+        corr.disagreements.append({'kind': 'probe', 'what': 'gcc itself does not align the variables of the _Alignas probe', 'gcc': [l for l in og if l not in want][:3]})
+        return
+    if not okc or oc != want:
+        bad = [l for l in oc if l not in want][:3] if okc else oc
+        k = int(bad[0].split()[1]) if okc and bad else None
+        corr.violations.append({'what': 'a variable declared with _Alignas is not placed at a multiple of the requested alignment'
+                                        if okc else 'chibicc does not translate _Alignas on variables that gcc accepts',
+                                'input': (' '.join(pre) + ' ' + glob[k] + ' /* and in main: */ ' + loc[k].strip()) if k is not None else src[:1500],
+                                'expected': 'address % alignment == 0 for the file-scope, static and automatic variable', 'got': bad})
+
 HUGE_ID = 'C08-huge-struct-overflow'
 def huge_leg(ctx, corr):
     """aggregates of 256 MiB or more: struct_decl counts bits in an int (known finding; outside the Int model)"""
@@ -884,7 +998,7 @@ def report(ctx, corr, problems, shrink_ok=True, exempt=()):
             corr.disagreements.append({'kind': 'layout spec vs gcc', 'case': s, 'decl': p['decl'], 'what': p['what'], 'gcc': p['gcc'], 'spec': p['spec']})
         else:
             regs = sorted(regions_of(t)) if s not in exempt else []   # repaired defects kept in the corpus are plain violations if they come back
-            v = {'what': p['what'], 'input': 'typedef ' + p['decl'] + ';', 'case': s, 'expected': p['expected'], 'got': p['got']}
+            v = {'what': p['what'], 'input': p['decl'], 'case': s, 'expected': p['expected'], 'got': p['got']}
             if regs:
                 # inside a known-finding region: one entry for the listed witness, one for the first other declaration of the region;
                 # the rest is only counted (the framework drops entries whose known_id is listed in known_findings.json)
@@ -907,7 +1021,7 @@ def report(ctx, corr, problems, shrink_ok=True, exempt=()):
                 if small is not t:
                     q = [x for x in check_batch(ctx, Corr(), [small], 'shr', 'shrink') if x['kind'] == 'violation']
                     if q:
-                        v = {'what': q[0]['what'], 'input': 'typedef ' + q[0]['decl'] + ';', 'case': ser(small), 'expected': q[0]['expected'],
+                        v = {'what': q[0]['what'], 'input': q[0]['decl'], 'case': ser(small), 'expected': q[0]['expected'],
                              'got': q[0]['got'], 'shrunk_from': s}
             if not v.get('known_id') and sum(1 for x in corr.violations if not x.get('known_id')) >= 5:
                 corr.count('further-violations-not-listed')
@@ -934,6 +1048,9 @@ def shrink(ctx, t):
         for j, (aa, w, nm, mt) in enumerate(ms):
             if aa:
                 yield (k, packed, al, ms[:j] + [(0, w, nm, mt)] + ms[j + 1:])
+            if isinstance(aa, tuple) and aa[1][0] in 'su':
+                for v in variants(aa[1]):
+                    yield (k, packed, al, ms[:j] + [(('T', v), w, nm, mt)] + ms[j + 1:])
             if mt[0] in 'su':
                 for v in variants(mt):
                     yield (k, packed, al, ms[:j] + [(aa, w, nm, v)] + ms[j + 1:])
@@ -959,7 +1076,7 @@ def correspond(ctx, corr):
     corr.rule = ('(1) every permutation of every C11 6.7.2p2 specifier multiset (+ interleaved qualifiers) and a stream of invalid keyword sequences '
                  '(all of length <= 2, thorough <= 4, plus random neighbours of valid ones) through chibicc, gcc, the declspec model and the C11 table; '
                  '(2) declarations of scalars, arrays, pointers, every bit-field base type x width (alone, between chars, in a union, next to unnamed '
-                 'fields), zero-width fields, all member sequences of length <= 2 over a 28-letter member alphabet in struct and union, random sequences '
+                 'fields), zero-width fields, all member sequences of length <= 2 over a 35-letter member alphabet (incl. _Alignas(type-name) with array/struct/union/pointer/scalar operands) in struct and union, random sequences '
                  'of length 3-4 with packed/aligned(n), random nested declarations (<= 8 members, depth <= 3, anonymous members, _Alignas, flexible '
                  'last member): each compiled by the snapshot chibicc and by gcc 12 into a program that prints sizeof, _Alignof, offsetof of every '
                  'reachable named member and the set bits after assigning all-ones to each bit-field of a zeroed object; the numbers are compared '
@@ -969,6 +1086,7 @@ def correspond(ctx, corr):
     specifier_leg(ctx, corr)
     stddef_leg(ctx, corr)
     huge_leg(ctx, corr)
+    alignas_vars_leg(ctx, corr)
     cases = gen_cases(ctx)
     B = 150
     problems = []
@@ -1008,7 +1126,7 @@ def search(ctx, broken, corr):
             if p['kind'] == 'violation' and not regions_of(p['case']):
                 small = shrink(ctx, p['case'])
                 q = [x for x in check_batch(ctx, Corr(), [small], 'srs', 'search') if x['kind'] == 'violation'] or [p]
-                return {'what': q[0]['what'], 'input': 'typedef ' + q[0]['decl'] + ';', 'case': ser(q[0]['case']),
+                return {'what': q[0]['what'], 'input': q[0]['decl'], 'case': ser(q[0]['case']),
                         'expected': q[0]['expected'], 'got': q[0]['got']}
     return None
 
